@@ -117,7 +117,18 @@ func panicSitesF(c *Check, fn *ssa.Function, keep func(ssa.Instruction) bool) []
 			}
 			switch v := ins.(type) {
 			case *ssa.Panic:
-				out = append(out, panicSite{fn, "panic", "panic(" + trunc(x.E(v.X).String()) + ")", v.Pos(), v})
+				arg := x.E(v.X).String()
+				what := "panic(" + trunc(arg) + ")"
+				if strings.HasPrefix(arg, "\"") || strings.HasPrefix(arg, "(\"") || strings.HasPrefix(arg, "fmt.Sprintf(") || strings.HasPrefix(arg, "fmt.Errorf(") || strings.HasPrefix(arg, "errors.New(") {
+					// a panic with a message is named by the conditions it sits under, not by its (freely editable) text
+					var cs []string
+					for k := range c.P.FA(fn).PathCondStrings(v.Block()) {
+						cs = append(cs, k)
+					}
+					sort.Strings(cs)
+					what = "panic(<message>) when " + strings.Join(cs, " ; ")
+				}
+				out = append(out, panicSite{fn, "panic", what, v.Pos(), v})
 			case *ssa.BinOp:
 				if (v.Op == token.QUO || v.Op == token.REM) && isIntegerType(v.X.Type()) {
 					if _, isConst := v.Y.(*ssa.Const); !isConst {
@@ -325,13 +336,13 @@ func c15(c *Check) {
 		{fn: "bsc/types.ecrecover", kind: "slice-bounds", what: "#0[1:]", reason: "Ecrecover returns a 65-byte key when its error is nil (tested)", needs: []need{{bscT + "ecrecover", "reject (go-ethereum/crypto.Ecrecover(go-ethereum/common.(Hash).Bytes(bsc/types.sealHash($0, $1)), $0.Extra[(len($0.Extra) - 65):])#1 != nil)"}}},
 		{fn: "bsc/types.ecrecover", kind: "slice-bounds", what: "[12:]", reason: "Keccak256 returns 32 bytes"},
 		{fn: "bsc/types.encodeSigHeader", kind: "slice-bounds", what: "$1.Extra[:(len($1.Extra) - 65)]", reason: "reached only through ecrecover after its length guard / on validated headers", needs: []need{{bscT + "ecrecover", "reject (len($0.Extra) < 65)"}}},
-		{fn: "bsc/types.encodeSigHeader", kind: "panic", what: "can't encode", reason: "rlp encoding of fixed field types into a hasher does not fail"},
-		{fn: "client/types.ParseChainID", kind: "panic", what: "regex allowed non-number", reason: "unreachable: the regexp admits digits only"},
+		{fn: "bsc/types.encodeSigHeader", kind: "panic", what: "go-ethereum/rlp.Encode(", reason: "rlp encoding of fixed field types into a hasher does not fail"},
+		{fn: "client/types.ParseChainID", kind: "panic", what: "strconv.ParseUint(", reason: "unreachable: the regexp admits digits only"},
 		{fn: "client/types.ParseHeight", kind: "const-index", what: "strings.Split($0, \"-\")[", reason: "local guard: element count is 2", needs: []need{{"x/xibc/core/client/types.ParseHeight", "reject (2 != len(strings.Split($0, \"-\")))"}}},
-		{fn: "core/client.InitGenesis", kind: "panic", what: "invalid client state", reason: "genesis validation unpacks every client state as exported.ClientState"},
-		{fn: "core/client.InitGenesis", kind: "panic", what: "invalid consensus state", reason: "genesis validation unpacks every consensus state as exported.ConsensusState"},
-		{fn: "core/packet.InitGenesis", kind: "panic", what: "module account has not been set", reason: "wiring error (maccPerms), not input"},
-		{fn: "x/aggregate.InitGenesis", kind: "panic", what: "module account has not been set", reason: "wiring error (maccPerms), not input"},
+		{fn: "core/client.InitGenesis", kind: "panic", what: ".ClientState.cachedValue.(xibc/exported.ClientState)#1", reason: "genesis validation unpacks every client state as exported.ClientState"},
+		{fn: "core/client.InitGenesis", kind: "panic", what: ".ConsensusState.cachedValue.(xibc/exp", reason: "genesis validation unpacks every consensus state as exported.ConsensusState"},
+		{fn: "core/packet.InitGenesis", kind: "panic", what: "GetModuleAccount(", reason: "wiring error (maccPerms), not input"},
+		{fn: "x/aggregate.InitGenesis", kind: "panic", what: "GetModuleAccount($2, $0, \"aggregate\") == nil", reason: "wiring error (maccPerms), not input"},
 		{fn: "eth/types.(Header).ToEthHeader", kind: "ext-may-panic", what: "core/types.BytesToBloom", reason: "Header.ValidateBasic bounds the bloom length", needs: []need{{ethHVB, "reject (256 < len($0.Bloom))"}}, check: ethValidated},
 		{fn: "eth/types.rlpHash", kind: "type-assert", what: "sync.(*Pool).Get(", reason: "the pool's New function returns a KeccakState"},
 		{fn: "rvesting/keeper.(Keeper).InitGenesis", kind: "panic", what: "AccAddressFromBech32($2.From)#1", reason: "ValidateGenesis parses From", needs: []need{{"x/rvesting/types.ValidateGenesis", "[(0 != len($0.From))] ⇒ reject (cosmos-sdk/types.AccAddressFromBech32($0.From)#1 != nil)"}}},
@@ -350,7 +361,7 @@ func c15(c *Check) {
 		{fn: "teleport/app.(*Teleport).InitChainer", kind: "panic", what: "encoding/json.Unmarshal($2.AppStateBytes", reason: "malformed genesis file (fails before any validation)"},
 		{fn: "teleport/app.(*Teleport).InitChainer", kind: "panic", what: "adapter.(Manager).InitGenesis", reason: "system-contract deployment at chain start: wiring"},
 		{fn: "tendermint/types.bigEndianHeightBytes", kind: "slice-bounds", what: "zero([16]byte)[:16][8:]", reason: "constant bounds inside a 16-byte array"},
-		{fn: "xibc/module.(AppModule).InitGenesis", kind: "panic", what: "failed to unmarshal", reason: "malformed genesis JSON (rejected by ValidateGenesis as well)"},
+		{fn: "xibc/module.(AppModule).InitGenesis", kind: "panic", what: "JSONCodec.UnmarshalJSON(", reason: "malformed genesis JSON (rejected by ValidateGenesis as well)"},
 		{fn: "bsc/types.ParseValidators", kind: "slice-bounds", what: "[(μ{0} * 20):((μ{0} + 1) * 20)]", reason: "loop bound n = len/20"},
 		{fn: "bsc/types.ParseValidators", kind: "var-index", what: "make([][]byte)[μ{0}]", reason: "result is made with length n and the loop runs i < n"},
 		{fn: "aggregate/keeper.(Keeper).CallEVMWithData", kind: "var-index", what: "make([]cosmos-sdk/types.Attribute)[μ{0}]", reason: "attribute slice is made with len(res.Logs) and indexed by the range index over res.Logs"},
